@@ -119,7 +119,9 @@ theorem step_no_panic (cfg : Cfg) (s : S) (c : Char) (hi : Inv2 s) : isPanic (st
   | init =>
     simp only
     split
-    · exact stepTag_no_panic _ _ _ _ _ (fun _ => by assumption)
+    · rename_i hc
+      simp only [Bool.and_eq_true, decide_eq_true_eq] at hc
+      exact stepTag_no_panic _ _ _ _ _ (fun _ => hc.1)
     · refine stepText_no_panic _ _ _ _ _ ?_
       simp only [WFtext]; split <;> simp
   | text l => simp only [hm, WF] at hwf; exact stepText_no_panic _ _ _ _ _ hwf
